@@ -301,6 +301,9 @@ def run_shard(ctx):
         elif i % 10 == 7:
             text, ordered, feats = fedgen.star_query(r), False, {'star-over-nested'}
             acc.count('star_shapes')
+        elif i % 20 == 15:
+            text, ordered, feats = fedgen.derived_join(r), False, {'nested-select-joined-across-integrations'}
+            acc.count('derived_join_shapes')
         elif i % 20 == 5:
             text, ordered, feats = fedgen.const_first(r), False, {'value-first-comparison'}
             acc.count('const_first_shapes')
